@@ -599,13 +599,13 @@ func (a *Attacker) hit(tr Targeter, atk *attack) *Result {
 		body = io.LimitReader(r.Body, a.maxBody)
 	}
 
-	if res.Body, err = io.ReadAll(body); err != nil {
+	res.Body, err = io.ReadAll(body)
+	res.BytesIn = uint64(len(res.Body)) // also count what was read before a read error
+	if err != nil {
 		return &res
 	} else if _, err = io.Copy(io.Discard, r.Body); err != nil {
 		return &res
 	}
-
-	res.BytesIn = uint64(len(res.Body))
 
 	if req.ContentLength != -1 {
 		res.BytesOut = uint64(req.ContentLength)
